@@ -141,6 +141,7 @@ func TestC12(t *testing.T) {
 		return
 	}
 	avoid := pbt.AvoidTags("C12", "C11")
+	c.SetRecheck(func(k any) []pbt.Violation { return evalC12(k.(c12Case)) })
 	c.ReplayKnown(t, func(raw json.RawMessage) []pbt.Violation {
 		var k c12Case
 		_ = json.Unmarshal(raw, &k)
